@@ -135,17 +135,9 @@ func (z *ZodObject[T, R]) MustParse(input any, ctx ...*core.ParseContext) R {
 
 // StrictParse validates input with compile-time type safety.
 func (z *ZodObject[T, R]) StrictParse(input T, ctx ...*core.ParseContext) (R, error) {
-	constraintInput := convertToObjectConstraintType[T, R](input)
-
-	return engine.ParseComplexStrict(
-		constraintInput,
-		&z.internals.ZodTypeInternals,
-		core.ZodTypeObject,
-		z.extractObjectForEngine,
-		z.extractObjectPtrForEngine,
-		z.validateObjectForEngine,
-		ctx...,
-	)
+	// StrictParse must answer exactly what Parse answers: the statically typed input is a valid
+	// Parse input, so run the one pipeline.
+	return z.Parse(input, ctx...)
 }
 
 // MustStrictParse validates input with compile-time type safety and panics on error.
